@@ -109,6 +109,7 @@ def hazards(ctx: Ctx, funcs, clause: str = "S0"):
     from rules.strided import absolute_offset_views
     from rules.negzero import negative_length_bounds
     from rules.negdim import raw_negative_dim_uses
+    from rules.viewparam import merging_views_of_parameters
     from rules.alias import aliasing_cache_stores
     from rules.excmatch import ArgcheckRaises, mismatched_handlers
     from rules.boundary import length_equals_position
@@ -178,6 +179,13 @@ def hazards(ctx: Ctx, funcs, clause: str = "S0"):
                        (f"`{u(bcs[0]['node'])}` caches {bcs[0]['why']} by reference: after an in-place edit by the caller the "
                         f"validity test compares the object with itself and a stale result is served") if bcs else "", rel,
                        bcs[0]["node"].lineno if bcs else f.line, sample=[(x["attr"], x["why"]) for x in cs], nontrivial=False)
+        mv = merging_views_of_parameters(f)
+        if mv:
+            col.ob("G31", clause, f"{where}::no-merging-view-of-a-caller's-tensor", False,
+                   f"`{u(mv[0]['node'])[:70]}` merges dimensions of `{mv[0]['param']}` with view(), which never copies: for a "
+                   f"non-contiguous argument (a slice of a larger tensor, a transposed batch) it raises 'view size is not "
+                   f"compatible with input tensor's size and stride'" + (f" ({len(mv)} such calls)" if len(mv) > 1 else ""),
+                   rel, mv[0]["node"].lineno, sample=[u(x["node"])[:60] for x in mv], nontrivial=False)
         nd = raw_negative_dim_uses(f)
         if nd:
             col.ob("G30", clause, f"{where}::negative-dimension-normalised-before-arithmetic", False,
